@@ -450,7 +450,7 @@ func (in *interp) visitInstr(fr *frame, instr ssa.Instruction) continuation {
 			if isSym(idx) {
 				i := intTerm(idx)
 				in.checkIndex(i, mkInt(int64(len(x))), "index-string")
-				fr.env[instr] = intVal(tAt(mkStr(x), i), types.Uint8)
+				fr.env[instr] = in.readByte(mkStr(x), i)
 				break
 			}
 			i := asInt64(idx)
@@ -461,7 +461,7 @@ func (in *interp) visitInstr(fr *frame, instr ssa.Instruction) continuation {
 		case symStr:
 			i := intTerm(idx)
 			in.checkIndex(i, tLen(x.t), "index-string")
-			fr.env[instr] = intVal(tAt(x.t, i), types.Uint8)
+			fr.env[instr] = in.readByte(x.t, i)
 		default:
 			panic(fmt.Sprintf("unexpected x type in Index: %T", x))
 		}
